@@ -3,8 +3,7 @@
 //@item src/intpack.rs struct U24
 //@item src/intpack.rs struct U24nU8
 //@item src/bytewise.rs struct State
-spec fn st_check(s: State) -> u8 { (s.opos_ch.0 & 0xff) as u8 }
-spec fn st_opos(s: State) -> u32 { s.opos_ch.0 >> 8 }
+//@include ghost_stbits.rs
 
 proof fn lemma_pack(raw: u32, a: u32, b: u8)
     requires a <= 0xff_ffff,
@@ -114,7 +113,6 @@ proof fn lemma_pack(raw: u32, a: u32, b: u8)
         r.is_err() ==> *final(self) == *old(self) && r.unwrap_err() is AutomatonScale,
 //@}
 //@endimpl
-spec fn opt_u32(o: Option<NonZeroU32>) -> u32 { match o { None => 0u32, Some(p) => p@ } }
 // R12x: `#[derive(Default)]` on State expanded by hand into an inherent fn (field-wise defaults); trusted expansion
 impl State {
     fn verif_default() -> (r: Self)
